@@ -16,7 +16,7 @@ func (s *progState) setup(n int) {
 		p, aerr := tx.Alloc()
 		verifAssert(aerr == nil, "Alloc on an empty file succeeds")
 		s.checkOwnership(w, p.ID())
-		b0, b1 := verifU8("b"), s.nextSeq()
+		b0, b1 := s.content()
 		verifAssert(p.SetBytes(verifBuf(b0, b1, b1)) == nil, "SetBytes succeeds")
 		w.pages = append(w.pages, refPage{id: p.ID(), b0: b0, b1: b1, last: b1})
 	}
